@@ -37,6 +37,28 @@ class PyTree:
         self.feature = []
         self.threshold = []
         self._value = None
+        self.n_features = n_features
+
+    # the other per-node arrays of the real Tree, as tree_add_node is asked to fill them by this library
+    @property
+    def missing_go_to_left(self):
+        return numpy.zeros(self.node_count, dtype=numpy.uint8)
+
+    @property
+    def n_node_samples(self):
+        return numpy.ones(self.node_count, dtype=numpy.int64)
+
+    @property
+    def weighted_n_node_samples(self):
+        return numpy.ones(self.node_count, dtype=numpy.float64)
+
+    @property
+    def impurity(self):
+        return numpy.zeros(self.node_count, dtype=numpy.float64)
+
+    @property
+    def n_leaves(self):
+        return sum(1 for c in self.children_left if c == -1)
 
     @property
     def node_count(self):
@@ -116,7 +138,7 @@ class PyDTR:
         return scipy.sparse.csr_matrix(m)
 
 
-class _TD_NP:
+class _TD_NP(sx.Conversions):
     def __getattr__(self, n):
         return getattr(numpy, n)
 
@@ -126,7 +148,7 @@ class _TD_NP:
         return numpy.array(a, dtype=dtype, **k)
 
 
-class _TS_NP:
+class _TS_NP(sx.Conversions):
     """numpy for tree_structure under SX: full() gives an object array, isnan on cells"""
 
     def __getattr__(self, n):
